@@ -138,17 +138,29 @@ impl<'a> ExpressionEvaluator<'a> {
                     ));
                 };
 
-                // A NULL operand makes the comparison unknown, negated or not
-                if matches!(inner[0], DataType::Null)
-                    || matches!(low[0], DataType::Null)
-                    || matches!(high[0], DataType::Null)
-                {
-                    return Ok(vec![DataType::Null]);
-                }
+                // `x BETWEEN a AND b` is `x >= a AND x <= b` in three-valued logic: a comparison
+                // with a NULL operand is unknown, but one side that is false settles it
+                let unknown = matches!(inner[0], DataType::Null);
+                let above_low = if unknown || matches!(low[0], DataType::Null) {
+                    None
+                } else {
+                    Some(inner[0] >= low[0])
+                };
+                let below_high = if unknown || matches!(high[0], DataType::Null) {
+                    None
+                } else {
+                    Some(inner[0] <= high[0])
+                };
+                let between = match (above_low, below_high) {
+                    (Some(false), _) | (_, Some(false)) => Some(false),
+                    (Some(true), Some(true)) => Some(true),
+                    _ => None,
+                };
 
-                Ok(vec![DataType::Bool(Bool(
-                    (inner[0] >= low[0] && inner[0] <= high[0]) != *negated,
-                ))])
+                match between {
+                    Some(b) => Ok(vec![DataType::Bool(Bool(b != *negated))]),
+                    None => Ok(vec![DataType::Null]),
+                }
             }
             BoundExpression::Exists { query, negated } => {
                 // An ordinary error of the statement: a panic here would kill the worker thread
